@@ -24,7 +24,8 @@ Inductive msg :=
 | MKU (v : Z)                        (* KeyUpdate; v = request_update byte; v < 0: wrong body length *)
 | MHB (b : list Z)                   (* one heartbeat RECORD (plaintext bytes) *)
 | MNST                               (* NewSessionTicket (TLS 1.3) *)
-| MCertReq (ctx : Z) (wf : bool)     (* post-handshake CertificateRequest; wf=false: empty compress_certificate list *)
+| MCertReq (ctx : Z) (wf : bool)     (* post-handshake CertificateRequest; wf=false: empty compress_certificate list
+                                        (only a deviating server sends that) *)
 | MCert (ctx : Z) (ch : Z)           (* Certificate; ctx 0 = empty context; ch 0 = empty chain, else identity *)
 | MCV (ok : bool)                    (* CertificateVerify; ok = signature verifies over the transcript *)
 | MFin (ok : bool)                   (* Finished; ok = verify_data matches *)
@@ -290,7 +291,8 @@ Inductive op :=
 | OWrite (d : list Z)
 | ORead (mx : Z)                     (* readAsync(max = mx or None when mx <= 0, min = 0) *)
 | OKeyUpdate (req : bool)            (* send_keyupdate_request *)
-| ORequestAuth (wf : bool)           (* request_post_handshake_auth; wf=false: certificate_compression_receive=[] *)
+| ORequestAuth (ce : bool)           (* request_post_handshake_auth; ce=false: certificate_compression_receive=[] --
+                                        then the compress_certificate extension is simply not sent (a078a25) *)
 | OHeartbeat (payload : list Z) (padlen : Z)   (* write_heartbeat *)
 | OTickets (k : Z)                   (* _serverSendTickets with ticket_count = k *)
 | OClose
@@ -342,13 +344,14 @@ Definition act (s : st) (o : op) : st * outT :=
       if cl then same 3000
       else if negb v13 then same 2000
       else sends (bump_w me false) [emit me (MKU (if req then 1 else 0))] 0
-  | ORequestAuth wf =>
+  | ORequestAuth _ =>
+      (* the request on the wire is well formed whatever the compression setting *)
       if cl || negb v13 || is_cl (cf me) || negb (pha_sup (cf me)) then same 2000
       else
         let a := au me in
         let c := next_ctx a in
-        sends (set_au me (mkau (pending a ++ [(c, wf)]) (c + 1) (chain a) (accepted a) (first_ctx a)))
-              [emit me (MCertReq c wf)] 0
+        sends (set_au me (mkau (pending a ++ [(c, true)]) (c + 1) (chain a) (accepted a) (first_ctx a)))
+              [emit me (MCertReq c true)] 0
   | OHeartbeat payload padlen =>
       if cl then same 3000
       else if negb (hb_sup (cf me)) || negb (hb_send (cf me)) then same 2000
